@@ -47,6 +47,8 @@ impl RowsetWriter {
 
     pub async fn create_dir(&self) -> StorageResult<()> {
         if !self.io_backend.is_in_memory() {
+            #[cfg(risinglight_verif)]
+            crate::verif::point_sync("persist.rowset.mkdir", &self.directory.to_string_lossy());
             tokio::fs::create_dir(&self.directory)
                 .await
                 .map_err(|err| err.into())
@@ -66,6 +68,11 @@ impl RowsetWriter {
                 guard.insert(path.as_ref().to_path_buf(), Bytes::from(data));
             }
             _ => {
+                #[cfg(risinglight_verif)]
+                crate::verif::point_sync(
+                    "persist.file.create",
+                    &format!("{}|{}", path.as_ref().to_string_lossy(), data.len()),
+                );
                 let file = OpenOptions::new()
                     .write(true)
                     .create_new(true)
@@ -78,6 +85,8 @@ impl RowsetWriter {
 
                 let file = writer.into_inner();
                 file.sync_data().await?;
+                #[cfg(risinglight_verif)]
+                crate::verif::point_sync("persist.file.synced", &path.as_ref().to_string_lossy());
             }
         }
 
@@ -87,6 +96,8 @@ impl RowsetWriter {
     async fn sync_dir(io_backend: &IOBackend, path: &impl AsRef<Path>) -> StorageResult<()> {
         if !io_backend.is_in_memory() {
             File::open(path.as_ref()).await?.sync_data().await?;
+            #[cfg(risinglight_verif)]
+            crate::verif::point_sync("persist.dir.synced", &path.as_ref().to_string_lossy());
         }
         Ok(())
     }
